@@ -50,7 +50,7 @@ SamePrev(s, prev) == IF ~s.rep THEN TRUE
                      ELSE s.eqPrev
 Good(s, prev) == s.out = "ok" /\ SameRef(s) /\ SamePrev(s, prev) /\ s.argsSame
 
-ClassFailDevs(k, s) == {f.dev : f \in {g \in FailTable : g.dev \in Deviations /\ g.cls = Class(k) /\ g.m = s.m
+ClassFailDevs(k, s) == {f.dev : f \in {g \in FailTable : g.dev \in Deviations /\ g.cls = Class(k) /\ g.m \in {s.m, "*"}
                                                        /\ g.et = s.etype /\ g.em = s.emsg}}
 ClassWrongDevs(k) == {w.dev : w \in {x \in WrongTable : x.dev \in Deviations /\ x.cls = Class(k)}}
 
